@@ -4,6 +4,7 @@ import (
 	"bytes"
 	"encoding"
 	"fmt"
+	"reflect"
 	"unicode"
 	"unicode/utf16"
 	"unicode/utf8"
@@ -41,6 +42,16 @@ var (
 	nullbytes = []byte(`null`)
 )
 
+// decodeNull: null does not reach UnmarshalText. It clears a pointer, map or slice
+// and leaves a value of any other kind as it is ( p points at a value of type d.typ.Elem() ).
+func (d *unmarshalTextDecoder) decodeNull(p unsafe.Pointer) {
+	typ := runtime.RType2Type(d.typ.Elem())
+	switch typ.Kind() {
+	case reflect.Ptr, reflect.Map, reflect.Slice, reflect.Interface:
+		reflect.NewAt(typ, p).Elem().Set(reflect.Zero(typ))
+	}
+}
+
 func (d *unmarshalTextDecoder) DecodeStream(s *Stream, depth int64, p unsafe.Pointer) error {
 	s.skipWhiteSpace()
 	start := s.cursor
@@ -70,7 +81,7 @@ func (d *unmarshalTextDecoder) DecodeStream(s *Stream, depth int64, p unsafe.Poi
 			}
 		case 'n':
 			if bytes.Equal(src, nullbytes) {
-				*(*unsafe.Pointer)(p) = nil
+				d.decodeNull(p)
 				return nil
 			}
 		}
@@ -123,7 +134,7 @@ func (d *unmarshalTextDecoder) Decode(ctx *RuntimeContext, cursor, depth int64, 
 			}
 		case 'n':
 			if bytes.Equal(src, nullbytes) {
-				*(*unsafe.Pointer)(p) = nil
+				d.decodeNull(p)
 				return end, nil
 			}
 		}
